@@ -286,6 +286,14 @@ func (en *SpecEnv) equal(l, r Val) string {
 		a, b := en.toSeq(l), en.toSeq(r)
 		return mkAnd(mkEq(a.Len, b.Len), mkEq(a.S, b.S))
 	}
+	if l.K == KArr {
+		if n, ok := arrLenOf(l.T); ok {
+			return arrEq(l.S, r.S, n)
+		}
+		if n, ok := arrLenOf(r.T); ok {
+			return arrEq(l.S, r.S, n)
+		}
+	}
 	switch l.K {
 	case KInt, KBool, KStr, KFloat, KArr:
 		return mkEq(l.S, r.S)
@@ -597,6 +605,13 @@ func (en *SpecEnv) evalCall(c *ast.CallExpr) Val {
 			return mathInt(v.Dat)
 		}
 		return mathInt(v.S)
+	case "iszero":
+		// iszero(v): v equals the zero value of its Go type
+		v := en.eval(c.Args[0])
+		if v.T == nil {
+			en.fail("iszero() needs a typed value")
+		}
+		return boolVal(en.equal(v, zeroVal(v.T)))
 	case "dyntype":
 		// dyntype(v): the dynamic type tag of an interface value (0 for nil)
 		v := en.eval(c.Args[0])
